@@ -150,12 +150,24 @@ Proof.
     cbn [cl]. lia.
 Qed.
 
+Lemma ind_oid x o o' : oid o' = oid o -> ind x o' = ind x o.
+Proof. unfold ind. intros ->. reflexivity. Qed.
+
+(* [ind x (f .. o)] for any wrapper f that keeps the oid (recycled_obj, idle_at, ...) *)
+Ltac ind_norm :=
+  repeat match goal with
+         | |- context [ind ?x ?e] =>
+             tryif is_var e then fail else
+               (let v := eval cbn in (oid e) in
+                match v with oid ?o => rewrite (ind_oid x o e eq_refl) end)
+         end.
+
 (* ---- the potential never increases *)
 Ltac phi_arith Hpc :=
   unfold Phi, fresh; sp;
   rewrite ?(sum_upd PNone) by reflexivity;
-  unfold pcof in Hpc; rewrite ?Hpc; cbn [w ind recycled_obj oid];
-  rewrite ?cl_app; cbn [cl];
+  unfold pcof in Hpc; rewrite ?Hpc; cbn [w]; ind_norm;
+  rewrite ?cl_app; cbn [cl]; ind_norm;
   repeat match goal with
          | |- context [ind ?x ?o] =>
              lazymatch goal with
@@ -270,7 +282,7 @@ Proof.
     + (* GCreate *)
       destruct r; inversion H; subst; [|phi_arith Hpc..].
       unfold Phi, fresh, new_obj. sp. rewrite (sum_upd PNone) by reflexivity.
-      unfold pcof in Hpc. rewrite Hpc. cbn [w ind oid].
+      unfold pcof in Hpc. rewrite Hpc. cbn [w]. unfold ind. cbn [oid].
       destruct (Nat.eqb_spec (next_oid s) x) as [->|Hne].
       * rewrite Nat.leb_refl. destruct (Nat.leb_spec (S x) x); lia.
       * destruct (Nat.leb_spec (next_oid s) x); destruct (Nat.leb_spec (S (next_oid s)) x); lia.
@@ -299,4 +311,232 @@ Proof.
     + destruct st; try discriminate H. destruct (timed (gr g)); inversion H; subst. destruct d; phi_arith Hpc.
     + destruct (timed (gc g)); inversion H; subst. phi_arith Hpc.
   - inversion H; subst. lia.
+Qed.
+
+Lemma Phi_run d x c tr : forall s s', run c s tr = Some s' -> Phi d x s' <= Phi d x s.
+Proof.
+  induction tr as [|l tr IH]; intros s s' H; cbn [run] in H.
+  - inversion H; subst. lia.
+  - destruct (step c s l) as [s1|] eqn:E; [|discriminate].
+    pose proof (Phi_step d x c s l s1 E). pose proof (IH _ _ H). lia.
+Qed.
+
+Lemma Phi_init d x c : Phi d x (init c) = 1.
+Proof. reflexivity. Qed.
+
+(* an oid exists at most once, and not before it was allocated *)
+Lemma unique_oid c tr s x :
+  run c (init c) tr = Some s ->
+  cl x (vec s) + cl x (out s) + sum (w true x) (tasks s) + fresh x s <= 1.
+Proof. intros H. pose proof (Phi_run true x c tr _ _ H). rewrite Phi_init in *. exact H0. Qed.
+
+Lemma sum_zero_each (f : pc -> Z) l :
+  (forall p, 0 <= f p) -> f PNone = 0 -> sum f l = 0 -> forall t, f (get PNone t l) = 0.
+Proof.
+  intros Hn Hd. induction l as [|p l IH]; intros Hs t.
+  - unfold get. destruct t; exact Hd.
+  - cbn [sum] in Hs. pose proof (Hn p). pose proof (sum_nonneg f l Hn).
+    destruct t as [|t]; [unfold get; cbn [nth]; lia|]. apply (IH ltac:(lia) t).
+Qed.
+
+(* potential 0 (not counting discarding holders): the oid is gone for good *)
+Lemma gone_forever c x tr s s' :
+  Phi false x s <= 0 -> run c s tr = Some s' ->
+  ~ In x (map oid (vec s')) /\ ~ In x (map oid (out s')) /\ (forall t, w false x (pcof s' t) = 0)
+  /\ (next_oid s' <= x -> False)%nat.
+Proof.
+  intros H0 Hr. pose proof (Phi_run false x c tr _ _ Hr) as Hle. unfold Phi in Hle, H0.
+  pose proof (cl_nonneg x (vec s')). pose proof (cl_nonneg x (out s')).
+  pose proof (sum_nonneg (w false x) (tasks s') (w_nonneg false x)).
+  pose proof (fresh_nonneg x s').
+  assert (Hv : cl x (vec s') = 0) by lia. assert (Ho : cl x (out s') = 0) by lia.
+  assert (Hs : sum (w false x) (tasks s') = 0) by lia. assert (Hf : fresh x s' = 0) by lia.
+  split; [apply cl_in0, Hv|]. split; [apply cl_in0, Ho|]. split.
+  - intros t. unfold pcof. apply sum_zero_each; [apply w_nonneg|reflexivity|exact Hs].
+  - intros Hlt. unfold fresh in Hf. apply Nat.leb_le in Hlt. rewrite Hlt in Hf. discriminate.
+Qed.
+
+(* the recycle gate answers "reject": from the next state on the potential is 0 *)
+Lemma reject_gone c tr s t g o st s1 :
+  run c (init c) tr = Some s -> pcof s t = GRec g o st ->
+  step c s (Env t OErr) = Some s1 ->
+  Phi false (oid o) s1 <= 0 /\ pcof s1 t = UUnready g o CLoop.
+Proof.
+  intros Hr Hpc Hs. pose proof (unique_oid c tr s (oid o) Hr) as U.
+  cbn [step] in Hs. unfold env_task in Hs. rewrite Hpc in Hs. cbn [option_map] in Hs.
+  inversion Hs; subst; clear Hs. split.
+  - unfold Phi, fresh in *. sp. rewrite (sum_upd PNone) by reflexivity.
+    unfold pcof in Hpc. rewrite Hpc. cbn [w].
+    pose proof (sum_le (w false (oid o)) (w true (oid o)) (tasks s) (w_le true (oid o))).
+    assert (Hi : ind (oid o) o = 1) by (unfold ind; rewrite Nat.eqb_refl; reflexivity).
+    assert (Hg : sum (w true (oid o)) (tasks s) >= 1).
+    { pose proof (sum_upd PNone (w true (oid o)) t PNone (tasks s) eq_refl) as Hu.
+      pose proof (sum_nonneg (w true (oid o)) (upd PNone t PNone (tasks s)) (w_nonneg true (oid o))).
+      rewrite Hpc in Hu. cbn [w] in Hu. lia. }
+    pose proof (cl_nonneg (oid o) (vec s)). pose proof (cl_nonneg (oid o) (out s)).
+    destruct (Nat.leb (next_oid s) (oid o)); lia.
+  - unfold tick, pcof. sp. apply get_upd_same.
+Qed.
+
+(* the same for every way in which the get gives the object up at the gate *)
+Lemma discard_gone c tr s t g o k :
+  run c (init c) tr = Some s -> pcof s t = UUnready g o k -> Phi false (oid o) s <= 0.
+Proof.
+  intros Hr Hpc. pose proof (unique_oid c tr s (oid o) Hr) as U.
+  unfold Phi, fresh in *.
+  pose proof (sum_upd PNone (w true (oid o)) t PNone (tasks s) eq_refl) as Hu.
+  pose proof (sum_upd PNone (w false (oid o)) t PNone (tasks s) eq_refl) as Hf.
+  pose proof (sum_le (w false (oid o)) (w true (oid o)) (upd PNone t PNone (tasks s)) (w_le true (oid o))).
+  pose proof (sum_nonneg (w false (oid o)) (upd PNone t PNone (tasks s)) (w_nonneg false (oid o))).
+  unfold pcof in Hpc. rewrite Hpc in Hu, Hf. cbn [w] in Hu, Hf.
+  assert (Hi : ind (oid o) o = 1) by (unfold ind; rewrite Nat.eqb_refl; reflexivity).
+  pose proof (cl_nonneg (oid o) (vec s)). pose proof (cl_nonneg (oid o) (out s)).
+  destruct (Nat.leb (next_oid s) (oid o)); lia.
+Qed.
+
+(* ---- hand-outs are logged exactly when an object enters [out] *)
+Definition is_handout (e : event) : bool := match e with EHandOut _ _ => true | _ => false end.
+
+Lemma shrink_idle_log t fuel s e :
+  is_handout e = true -> In e (log (shrink_idle t fuel s)) -> In e (log s).
+Proof.
+  intros He. revert s; induction fuel as [|f IH]; intros s; cbn [shrink_idle]; [tauto|].
+  destruct (Z.ltb (maxs s) (size s)); [|tauto].
+  destruct (vec s) as [|o r]; [tauto|]. intros Hin. apply IH in Hin. sp. cbn [In] in Hin.
+  destruct Hin as [<-|[<-|Hin]]; try discriminate He. exact Hin.
+Qed.
+
+Lemma resize_locked_log s t n e :
+  is_handout e = true -> In e (log (resize_locked s t n)) -> In e (log s).
+Proof.
+  intros He. unfold resize_locked. cbv zeta.
+  destruct (Z.ltb n (maxs s)); [|destruct (Z.ltb (maxs s) n)].
+  - sp. intros Hin. apply (shrink_idle_log _ _ _ _ He) in Hin. exact Hin.
+  - match goal with |- context [sem_add_n ?k ?y] =>
+      pose proof (sem_add_n_fields k y) as (F1&F2&F3&F4&F5&F6&F7&F8&F9&F10&F11) end.
+    rewrite F11. sp. intros Hin. apply (shrink_idle_log _ _ _ _ He) in Hin. exact Hin.
+  - intros Hin. apply (shrink_idle_log _ _ _ _ He) in Hin. exact Hin.
+Qed.
+
+Lemma retain_loop_log t ds v s e :
+  is_handout e = true ->
+  let '(s', kept, removed) := retain_loop t ds v s in In e (log s') -> In e (log s).
+Proof.
+  intros He. revert ds s; induction v as [|o r IH]; intros ds s; cbn [retain_loop]; [tauto|].
+  destruct (match ds with [] => true | b :: _ => b end).
+  - match goal with |- context [retain_loop t ?a r ?y] =>
+      specialize (IH a y); destruct (retain_loop t a r y) as [[s2 k2] r2] end.
+    intros Hin. apply IH in Hin. sp. cbn [In] in Hin. destruct Hin as [<-|Hin]; [discriminate He|exact Hin].
+  - match goal with |- context [retain_loop t ?a r ?y] =>
+      specialize (IH a y); destruct (retain_loop t a r y) as [[s2 k2] r2] end.
+    intros Hin. apply IH in Hin. sp. cbn [In] in Hin.
+    destruct Hin as [<-|[<-|Hin]]; try discriminate He. exact Hin.
+Qed.
+
+Lemma emit_removed_log t l s e : is_handout e = true -> In e (log (emit_removed t l s)) -> In e (log s).
+Proof.
+  intros He. revert s; induction l as [|o r IH]; intros s; cbn [emit_removed]; [tauto|].
+  intros Hin. apply IH in Hin. sp. cbn [In] in Hin. destruct Hin as [<-|Hin]; [discriminate He|exact Hin].
+Qed.
+
+Lemma emit_destroyed_log t l s e : is_handout e = true -> In e (log (emit_destroyed t l s)) -> In e (log s).
+Proof.
+  intros He. revert s; induction l as [|o r IH]; intros s; cbn [emit_destroyed]; [tauto|].
+  intros Hin. apply IH in Hin. sp. cbn [In] in Hin. destruct Hin as [<-|Hin]; [discriminate He|exact Hin].
+Qed.
+
+Ltac ho_plain :=
+  sp; autorewrite with fld; cbn [In];
+  let Hin := fresh "Hin" in intros Hin;
+  repeat match goal with
+         | H : _ \/ _ |- _ => destruct H as [H|H]
+         | H : EHandOut _ _ = EHandOut _ _ |- _ => inversion H; subst; clear H
+         | H : _ = EHandOut _ _ |- _ => discriminate H
+         end;
+  first [left; assumption | right; left; reflexivity | tauto].
+
+Theorem handout_enters_out c s l s' o t :
+  step c s l = Some s' -> In (EHandOut o t) (log s') -> In (EHandOut o t) (log s) \/ In o (out s').
+Proof.
+  intros H. destruct l as [t0 op|t0|t0 r|t0|t0|n]; cbn [step] in H.
+  - unfold start in H. destruct (Nat.eqb t0 (length (tasks s))); cbn [negb] in H; [|discriminate].
+    destruct op as [g|y|y|n|ds| | | ]; cbn [option_map] in H;
+      repeat match type of H with context [if ?b then _ else _] => destruct b
+                                | context [match find_oid ?a ?b with _ => _ end] => destruct (find_oid a b) end;
+      inversion H; subst; ho_plain.
+  - unfold step_task in H.
+    destruct (pcof s t0) eqn:Hpc; cbn [option_map] in H; try discriminate H.
+    + destruct (gr g); [|destruct (runtime c)..]; inversion H; subst; ho_plain.
+    + inversion H; subst. unfold acquire.
+      destruct (gw g); cbn match;
+        repeat match goal with |- context [if ?b then _ else _] => destruct b end; ho_plain.
+    + destruct (closed s); [|destruct a]; inversion H; subst; try destruct a; ho_plain.
+    + destruct (Z.ltb 0 (debt s)); inversion H; subst; ho_plain.
+    + destruct (pop_idle c (vec s)) as [[o1 r1]|].
+      * inversion H; subst. unfold first_stage. destruct (pre c); ho_plain.
+      * destruct (gc g); [|destruct (runtime c)..]; inversion H; subst; ho_plain.
+    + destruct (pcr c); inversion H; subst; ho_plain.
+    + inversion H; subst; ho_plain.
+    + destruct c0; inversion H; subst; ho_plain.
+    + inversion H; subst; ho_plain.
+    + inversion H; subst; ho_plain.
+    + destruct (alive s); inversion H; subst; ho_plain.
+    + destruct (Z.leb (size s) (maxs s)); inversion H; subst; ho_plain.
+    + inversion H; subst; ho_plain.
+    + inversion H; subst; ho_plain.
+    + inversion H; subst; ho_plain.
+    + destruct (alive s); inversion H; subst; ho_plain.
+    + inversion H; subst; ho_plain.
+    + inversion H; subst; ho_plain.
+    + inversion H; subst; ho_plain.
+    + destruct (closed s); inversion H; subst; [ho_plain|].
+      sp. intros Hin. left. apply (resize_locked_log _ _ _ (EHandOut o t) eq_refl Hin).
+    + pose proof (retain_loop_log t0 ds (vec s) s (EHandOut o t) eq_refl) as E.
+      destruct (retain_loop t0 ds (vec s) s) as [[s1 kept] removed].
+      inversion H; subst. sp. intros Hin. left. apply E.
+      apply (emit_removed_log t0 removed _ (EHandOut o t) eq_refl) in Hin. sp. cbn [In] in Hin.
+      destruct Hin as [Hin|Hin]; [discriminate Hin|exact Hin].
+    + inversion H; subst. sp. intros Hin. left.
+      apply (resize_locked_log _ _ _ (EHandOut o t) eq_refl) in Hin. exact Hin.
+    + inversion H; subst. unfold status_event. destruct (Z.ltb (users s) (size s)); ho_plain.
+    + inversion H; subst. sp. intros Hin. left.
+      apply (emit_destroyed_log _ _ _ (EHandOut o t) eq_refl) in Hin. exact Hin.
+  - unfold env_task in H.
+    destruct (pcof s t0) eqn:Hpc; cbn [option_map] in H; try discriminate H.
+    + destruct r; inversion H; subst; [|ho_plain..].
+      unfold next_stage.
+      destruct st as [k| |k];
+        repeat match goal with
+               | |- context [if ?b then _ else _] => destruct b
+               | |- context [match post c with _ => _ end] => destruct (post c)
+               end; ho_plain.
+    + destruct r; inversion H; subst; ho_plain.
+    + destruct r; [destruct (Nat.ltb (S k) (length (pcr c)))|..]; inversion H; subst; ho_plain.
+  - unfold cancel_task in H.
+    destruct (pcof s t0) eqn:Hpc; cbn [option_map] in H; try discriminate H.
+    + inversion H; subst. unfold leave_wait. destruct a; ho_plain.
+    + destruct (stage_async c st); inversion H; subst. ho_plain.
+    + inversion H; subst. ho_plain.
+    + destruct (is_async (pcr c) k); inversion H; subst. ho_plain.
+  - unfold fire_task in H. destruct (negb (runtime c)); [discriminate|].
+    destruct (pcof s t0) eqn:Hpc; cbn [option_map] in H; try discriminate H.
+    + destruct (gw g); inversion H; subst. unfold leave_wait. destruct a; ho_plain.
+    + destruct st; try discriminate H. destruct (timed (gr g)); inversion H; subst. ho_plain.
+    + destruct (timed (gc g)); inversion H; subst. ho_plain.
+  - inversion H; subst. tauto.
+Qed.
+
+(* once the potential is 0 no hand-out of that oid is ever logged again *)
+Lemma no_handout_after c x tr : forall s s',
+  Phi false x s <= 0 -> run c s tr = Some s' ->
+  forall o t, In (EHandOut o t) (log s') -> oid o = x -> In (EHandOut o t) (log s).
+Proof.
+  induction tr as [|l tr IH]; intros s s' H0 Hr o t Hin Hx; cbn [run] in Hr.
+  - inversion Hr; subst. exact Hin.
+  - destruct (step c s l) as [s1|] eqn:E; [|discriminate].
+    assert (H1 : Phi false x s1 <= 0) by (pose proof (Phi_step false x c s l s1 E); lia).
+    specialize (IH s1 s' H1 Hr o t Hin Hx).
+    destruct (handout_enters_out c s l s1 o t E IH) as [Hl|Ho]; [exact Hl|].
+    exfalso. destruct (gone_forever c x [] s1 s1 H1 eq_refl) as (_ & Hout & _).
+    apply Hout. subst x. apply in_map. exact Ho.
 Qed.
